@@ -228,6 +228,23 @@ func TestC02_Table(t *testing.T) {
 		}
 		cases = append(cases, val.V{K: val.List, Items: items}, val.V{K: val.Map, Ents: ents})
 	}
+	// wide, shallow lists whose elements are collections (nesting depth 2 whatever the width), around the
+	// decoder's default depth limit of 1024 and beyond
+	for _, n := range []int{1022, 1023, 1024, 1025, 1500, 3000} {
+		maps := make([]val.V, n)
+		mixed := make([]val.V, n)
+		for i := range maps {
+			maps[i] = val.V{K: val.Map, Ents: []val.Ent{}}
+			mixed[i] = val.MkInt(int64(i))
+		}
+		mixed[n-1] = val.MkList(val.MkMap(val.Ent{K: "k", V: val.MkList()}))
+		cases = append(cases, val.V{K: val.List, Items: maps}, val.V{K: val.List, Items: mixed})
+		wide := make([]val.Ent, n)
+		for i := range wide {
+			wide[i] = val.Ent{K: fmt.Sprintf("k%04d", i), V: val.MkList(val.MkInt(int64(i)))}
+		}
+		cases = append(cases, val.V{K: val.Map, Ents: wide})
+	}
 	if evid.Thorough() {
 		// the 4-byte / 8-byte length-head boundary, one 4 GiB string at a time and without keeping
 		// the output (a counting writer): the head bytes, the total length and EncodedLength
